@@ -6,3 +6,9 @@ reg('C01', 'runtime monitoring: reference-model oracle on tree snapshots (random
     'combinator/structural bugs show.',
     'Trusted: the reference (vlib/refsel.py), the snapshotter, bs4 public attributes; :root only on single-rooted '
     'documents; ASCII-only case folding in generated values.')
+reg('C02', 'runtime monitoring: arithmetic oracle over an exhaustively executed (A,B) x sibling-sequence space',
+    'Every (A,B) in a square, in several spellings, on every a/b sibling sequence up to a length, four interleavings '
+    'of non-element nodes and four placements is executed through compile/select/match of the real code and '
+    'compared with the arithmetic definition (exists n>=0: A*n+B = position); exhaustive for that bounded space, '
+    'sampled beyond (|A|,|B| <= 10^4).',
+    'Trusted: position/arith reference in vlib/refsel.py; spellings limited to the CSS An+B microsyntax.')
